@@ -160,6 +160,39 @@ func runC12(c *Ctx) {
 	for i := 0; i < nham; i++ {
 		c12CloseHammer(c, i)
 	}
+	c12FailedConcurrentWrites(c)
+}
+
+// (e) "advance it by the bytes transferred" when a concurrent Write is refused in several places at once: Write of 7 chunks at
+// a non-zero offset under UseConcurrentWrites, two or three of the chunks refused with different status codes, against the
+// scripted peer answering in request order and in permuted order (a server may answer outstanding requests in any order).
+// Whatever order the refusals arrive in, the count is the length of the prefix before the lowest refused chunk, the error is
+// that chunk's, and the offset has advanced by exactly that count (model: the extracted transfer functions; oracle: C13's).
+func c12FailedConcurrentWrites(c *Ctx) {
+	reps := 48
+	if c.Thorough() {
+		reps = 1500
+	}
+	codes := []uint32{4, 2, 3, 9}
+	for i := 0; i < reps; i++ {
+		p := 2 + i%3
+		x := &xcase{api: []string{"write", "writeat", "write"}[i%3], p: p, conc: 2 + i%3, cw: true, cr: i%2 == 0, flen: 3 * p, n: 7*p + i%2, off: []int{p, 1, 2 * p, 3*p + 1}[i%4],
+			maxtx: 32768, src: "opaque", backend: []string{"peerperm", "peer", "peerperm"}[i%3], regular: true}
+		a := c.Rng.Intn(6)
+		b := a + 1 + c.Rng.Intn(6-a)
+		x.wfail = map[uint64]uint32{uint64(x.off + a*p): codes[i%4], uint64(x.off + b*p): codes[(i+1)%4]}
+		if i%5 == 0 && b < 6 {
+			x.wfail[uint64(x.off+6*p)] = codes[(i+2)%4]
+		}
+		r, n := emitX(c, x)
+		if r == nil {
+			continue
+		}
+		c.NT(n)
+		c.Stat("failed_concurrent_writes")
+		ok, why := oraclePartial(x, r)
+		c.Oracle(n, ok, why)
+	}
 }
 
 func c12Sequence(c *Ctx, s int, backend, dir string, failing bool) {
